@@ -3769,10 +3769,25 @@ func c06R10(c *Ctx, r *Report) {
 	}
 	info := fn.Info()
 	ok, where := false, c.pos(fn.Decl.Pos())
+	// the sharing test: a same-package callee, or a callee of one (the test may be wrapped in a helper that
+	// also looks through references)
+	var candidates []*types.Func
 	for _, cl := range callsIn(fn.Decl.Body, false) {
 		f := callee(info, cl)
 		hf := c.FnOf(f)
 		if f == nil || hf == nil || hf.Decl == nil || hf.Decl.Body == nil || f.Pkg() != fn.Obj.Pkg() {
+			continue
+		}
+		candidates = append(candidates, f)
+		for _, cl2 := range callsIn(hf.Decl.Body, false) {
+			if g := callee(hf.Info(), cl2); g != nil && g.Pkg() == fn.Obj.Pkg() {
+				candidates = append(candidates, g)
+			}
+		}
+	}
+	for _, f := range candidates {
+		hf := c.FnOf(f)
+		if hf == nil || hf.Decl == nil || hf.Decl.Body == nil {
 			continue
 		}
 		cases := map[string]*ast.CaseClause{}
